@@ -81,6 +81,18 @@ impl<'ast> Visit<'ast> for LoopFinder {
         let s = e.span().byte_range();
         let b = e.body.brace_token.span.open().byte_range();
         self.loops.push((s.start, b.start, s.end));
+        // D16: for PAT in LO..=HI { ... }   (an inclusive i32 range; rewritten to a while loop because Verus `for` has no `continue`)
+        if let (syn::Pat::Ident(_), syn::Expr::Range(rg)) = (&*e.pat, &*e.expr) {
+            if let (Some(lo), Some(hi), syn::RangeLimits::Closed(_)) = (&rg.start, &rg.end, &rg.limits) {
+                let p0 = e.pat.span().byte_range();
+                let l = lo.span().byte_range();
+                let h = hi.span().byte_range();
+                self.vd.push(format!(
+                    "{{\"rule\":\"D16\",\"call\":[{},{}],\"pat\":[{},{}],\"lo\":[{},{}],\"hi\":[{},{}]}}",
+                    s.start, b.start + 1, p0.start, p0.end, l.start, l.end, h.start, h.end
+                ));
+            }
+        }
         // D1: for (I, P) in X.iter().enumerate() { ... }
         if let (syn::Pat::Tuple(pt), syn::Expr::MethodCall(en)) = (&*e.pat, &*e.expr) {
             if en.method == "enumerate" && en.args.is_empty() && pt.elems.len() == 2 {
